@@ -40,6 +40,21 @@ def cases(tier, rng):
             continue
         line = "c15 %s %s %d 0 20" % (c, st, n)
         cs.append({"line": line, "key": line, "model": False, "tags": {"carrier": c, "stall": st + "x20"}})
+    # what a port scanner sends (a complete request whose first line has one blank) to every kind of endpoint that reads the handshake
+    # itself; twenty websocket peers stalled AFTER the websocket upgrade, inside the session handshake
+    for c in ("tcp", "kcp", "dns", "tcp+tls") if thorough else ("tcp", "kcp", "dns"):
+        if c == "tcp+tls":
+            continue      # (a TLS endpoint never sees the line)
+        line = "c15 %s scanner %d" % (c, n)
+        cs.append({"line": line, "key": line, "model": False, "tags": {"carrier": c, "stall": "scanner"}})
+    for st in ("upgraded", "upgraded-halfline"):
+        if tier != "thorough" and st == "upgraded-halfline":
+            continue
+        line = "c15 ws %s %d 0 20" % (st, n)
+        cs.append({"line": line, "key": line, "model": False, "tags": {"carrier": "ws", "stall": st + "x20"}})
+    # a DNS peer whose refusal is queued for it and which then stops polling for good; the server gives up at the handshake limit
+    line = "c15 dns garbage-vanish %d 1" % n
+    cs.append({"line": line, "key": line, "model": False, "tags": {"carrier": "dns", "stall": "garbage-vanish+expired"}})
     # the DNS endpoint: a tunnel peer of the scenario's own completes the tunnel's negotiation (a session is open on the endpoint) and
     # stalls at a point of the session handshake; five such peers at once; and sessions that outlive the tunnel's idle limit (lowered to
     # 1 s; the thorough tier waits for the endpoint's own housekeeping pass, one minute) - others must be served all the same
